@@ -17,7 +17,7 @@ LEVEL_TEXT = ("For each of the 9 device types, batches of datagrams are built fr
               "be delivered per datagram. Sampling, no proof.")
 RULE = ("case = device type + list of field dictionaries (one datagram each); non-trivial = the 6 MAC bytes and 4 IP bytes are "
         "pairwise distinct and numeric fields are non-zero; distinct by datagram fields."
-        ' A third of the batches run under a host zone other than UTC; names include non-NFC-stable forms, a leading U+FEFF and leading/trailing blanks. soak: 66 000 (thorough 140 000) well-formed broadcasts through one bridge port in one process, each must arrive exactly once.')
+        ' A third of the batches run under a host zone other than UTC; names include non-NFC-stable forms, a leading U+FEFF and leading/trailing blanks. soak: 66 000 datagrams, every other one a well-formed broadcast (thorough 140 000, all well-formed) through one bridge port in one process, each must arrive exactly once.')
 ASSUMPTIONS = [
     "broadcast layout of DESIGN appendix A.3 pinned by the 4 device captures + 12 on/off captures",
     "last_data_update, the on/off state of shutters and values outside the stated domains are not asserted",
@@ -176,5 +176,5 @@ def subchecks(tier):
                         shards=4 if big else 1, shrink_budget=120))
     from . import c07
     subs.append(Sub("soak", lambda rep, case: c07.body_soak(rep, case, "C05"), shards=2, exhaustive=False,
-                    cases=lambda: ([{"n": 66_000, "valid_every": 1}] if not big else [{"n": 140_000, "valid_every": 1}, {"n": 70_000, "valid_every": 3}])))
+                    cases=lambda: ([{"n": 66_000, "valid_every": 2}] if not big else [{"n": 140_000, "valid_every": 1}, {"n": 70_000, "valid_every": 3}])))
     return subs
